@@ -17,7 +17,7 @@ pub struct ConsIter<'buf, B: MutRB, const W: bool> {
     buffer: BufRef<'buf, B>,
 }
 
-unsafe impl<B: ConcurrentRB + MutRB<Item = T>, T, const W: bool> Send for ConsIter<'_, B, W> {}
+unsafe impl<B: ConcurrentRB + MutRB<Item = T>, T: Send, const W: bool> Send for ConsIter<'_, B, W> {}
 
 impl<B: MutRB + IterManager, const W: bool> Drop for ConsIter<'_, B, W> {
     fn drop(&mut self) {
